@@ -139,11 +139,17 @@ def main(argv=None):
                 r["replay"] = rp
             else:
                 reproduced = r.get("reproduced")
+            kid = r.get("known_id") or o.known
+            if reproduced and kid and any(k.get("id") == kid and k.get("property") == prop for k in known.get("known", [])):
+                ent = [k for k in known["known"] if k.get("id") == kid][0]
+                r["detail"] = ent.get("what", kid)
+                known_hits.append((o.id, r))
+                continue
             if not reproduced:
                 errors.append((o.id, "counterexample does not reproduce natively (model/stub error): %s -> %s"
                                % (r.get("cex"), r.get("replay", {}).get("why") or r.get("replay", {}).get("ret"))))
                 continue
-            path = os.path.join(ROOT, "evidence", "replay", f"{prop}_{o.id.replace('/', '_')}.json")
+            path = os.path.join(ROOT, "evidence", "replay", f"{prop}_" + "".join(c if c.isalnum() or c in "-." else "_" for c in o.id) + ".json")
             json.dump({"property": prop, "module": modname, "obligation": o.id, "engine": o.engine,
                        "args": r.get("cex"), "returned": r.get("ret") or r.get("detail")}, open(path, "w"), indent=1)
             violations.append((o.id, path, r))
